@@ -26,6 +26,7 @@ pub struct Mix {
     pub iter_all: u32,
     pub iter_step: u32,
     pub extend: u32,
+    pub collect: u32,
 }
 
 impl Mix {
@@ -49,6 +50,7 @@ impl Mix {
             iter_all: 0,
             iter_step: 0,
             extend: 0,
+            collect: 0,
         }
     }
     pub fn zero() -> Mix {
@@ -71,9 +73,10 @@ impl Mix {
             iter_all: 0,
             iter_step: 0,
             extend: 0,
+            collect: 0,
         }
     }
-    fn weights(&self) -> [u32; 18] {
+    fn weights(&self) -> [u32; 19] {
         [
             self.get,
             self.contains,
@@ -93,6 +96,7 @@ impl Mix {
             self.iter_all,
             self.iter_step,
             self.extend,
+            self.collect,
         ]
     }
     /// Swarm: knock out a random subset of the enabled kinds (never all of them).
@@ -128,6 +132,7 @@ impl Mix {
             iter_all: w[15],
             iter_step: w[16],
             extend: w[17],
+            collect: w[18],
         }
     }
 }
@@ -446,6 +451,20 @@ pub fn gen_program(rng: &mut Rng, gc: &GenCfg) -> Program {
                     } else {
                         Op::IterNext(rng.range(1, 4) as u32)
                     }
+                }
+                18 => {
+                    // bulk construction: sizes around the resize / treeify thresholds, colliding
+                    // keys per the run's hash function, with and without a size hint
+                    let n = *rng.pick(&[1u64, 2, 3, 9, 12, 13, 17, 25, 40, 70, 100, 200]);
+                    let dup = rng.chance(1, 4);
+                    let kv = (0..n)
+                        .map(|i| {
+                            next_vid += 1;
+                            let k = if dup && i > 0 && rng.chance(1, 3) { rng.below(i) as u32 } else { i as u32 };
+                            (k * 7, next_vid)
+                        })
+                        .collect();
+                    Op::Collect(kv, rng.chance(1, 2))
                 }
                 _ => {
                     let n = rng.range(1, 4);
